@@ -1686,6 +1686,8 @@ class FuncFind(ValueFunc):
         if obj.isString():
             part = args.getString("part").value
             start = args.getInt("start", 0).value
+            if start < 0:
+                start = 0
             return ValueInt(obj.value.find(part, start))
         elif obj.isList():
             env = environment
@@ -1693,7 +1695,7 @@ class FuncFind(ValueFunc):
                 env = environment.newEnv()
             item = args.get("part")
             lst = obj.value
-            for idx in range(len(lst)):
+            for idx in range(max(start, 0), len(lst)):
                 elem = lst[idx]
                 if key:
                     elem = key.execute(
